@@ -6,7 +6,7 @@ tvars == <<vars, l>>
 Ev(name) == l <= Len(T) /\ T[l].e = name /\ l' = l + 1
 R == T[l]
 TReset == /\ Ev("Reset")
-          /\ accepted' = 0 /\ sent' = 0 /\ dead' = FALSE /\ interest' = FALSE /\ inWrite' = FALSE
+          /\ accepted' = 0 /\ sent' = 0 /\ dead' = FALSE /\ interest' = FALSE /\ inWrite' = FALSE /\ blockedInWrite' = FALSE
 TWB  == Ev("WriteBegin") /\ WriteBegin
 TWE  == Ev("WriteEnd") /\ WriteEnd(R.len, R.acc, R.crsplit)
 TSend == Ev("Send") /\ Send(R.n, R.ok)
